@@ -8,7 +8,7 @@ CONSTANTS
   Decoys = {1}
   HolderKeys = {""}
   PairStrats = FALSE
-  ShapeIdx = {1, 2, 3, 5, 6, 7, 9}
+  ShapeIdx = {1, 2, 3, 5, 6, 7, 9, 10}
   PlanSet <- Plans
   PresChoices <- Pres
   WantOther = FALSE
